@@ -58,7 +58,7 @@ PROPS = {
     },
     "C14": {
         "level": "proof",
-        "lean_targets": ["LP.Props.C14", "LP.Props.C14Eval", "LP.Props.C14PowMod", "LP.Props.C14RootCount"],
+        "lean_targets": ["LP.Props.C14", "LP.Props.C14Eval", "LP.Props.C14PowMod", "LP.Props.C14RootCount", "LP.Props.C14RootCountModel"],
         "harnesses": [{"name": "h_fsi", "quick": 4000, "thorough": 60000, "thorough_env": {"LPV_EXH7": "1"}},
                       {"name": "h_zp", "quick": 1500, "thorough": 40000}],
         "select": lambda t: t[1] in ("fsi", "zp"),
